@@ -17,9 +17,15 @@ def main():
     h = hashlib.sha256()
     count = 0
     for i in range(n):
-        nodes = rules.rand_tree(rng, rng.choice((rules.COLLISION_FREE, rules.ADVERSARIAL)), max_nodes=10)
-        edges = rules.rand_edges(rng, nodes)
-        fp = rules.pick_filters(rng, nodes, strict=rng.random() < 0.5)
+        if i % 4 == 3:
+            # large cases: reports with dozens of lines, many subjects / objects (anything that sorts, truncates or de-duplicates through a set shows here)
+            nodes = rules.rand_tree(rng, rules.LARGE_POOL, max_nodes=40, max_depth=6)
+            edges = rules.rand_edges(rng, nodes, 60)
+            fp = rules.pick_filters(rng, nodes, strict=rng.random() < 0.5, kmax=6)
+        else:
+            nodes = rules.rand_tree(rng, rng.choice((rules.COLLISION_FREE, rules.ADVERSARIAL)), max_nodes=10)
+            edges = rules.rand_edges(rng, nodes)
+            fp = rules.pick_filters(rng, nodes, strict=rng.random() < 0.5)
         if fp is None:
             continue
         mode = "scan" if i % 5 == 0 else "direct"
